@@ -1366,6 +1366,11 @@ def _decode_headers(headers, encoding):
         assert isinstance(header, HeaderTuple)
 
         name, value = header
-        name = name.decode(encoding)
-        value = value.decode(encoding)
+        try:
+            name = name.decode(encoding)
+            value = value.decode(encoding)
+        except UnicodeDecodeError:
+            raise ProtocolError(
+                "Received header that cannot be decoded as %s" % encoding
+            )
         yield header.__class__(name, value)
